@@ -20,7 +20,7 @@ func init() {
 		ID: "C01",
 		Rule: "case = one pair of valid polygonal operands in general position (operands with more than one ring are additionally presented as ONE polygon holding all rings in random order - a hole may precede its shell, as in the library's own Difference/Union results - half of those laid out as consecutive sub-slices of one backing array, and as a MultiPolygon whose members hold their rings in random order, sometimes with an empty member; star rings of 3-60 vertices (300 thorough) with 0-3 holes, rotated comb and staircase rings, multi-polygons of 2-4 disjoint members, boxes; configurations: operands differing in size by 10^3..10^6.3 (a triangle inside / in a hole of / next to a large shape), overlapping, B inside A, B inside a hole of A, A inside B, disjoint with overlapping bounding boxes, bounding-box-disjoint on one or both axes; random ring orientation/start/closure) run through all four operations plus the reverse difference for every receiver/argument presentation {Polygon, MultiPolygon, *Bounds}^2 the shapes admit; " +
 			"each result is judged at <= 96 margin points by the harness's exact even-odd membership (A, B and result rings), by the inclusion-exclusion area identities (exact Operand areas, nesting-parity area of the result rings), ring closure and the empty-result rule; " +
-			"an evaluation is one operation result judged; non-trivial = Operand pair whose true intersection and both differences each contain a margin point (distinct by Operand hash)",
+			"phase huge_box: an ordinary operand and a box with 1-3 sides 1e11..1e300 away whose near sides cut through it, areas of Intersection / Difference against a Sutherland-Hodgman reference, all violations under one key (recorded defect of the external clipper); an evaluation is one operation result judged; non-trivial = Operand pair whose true intersection and both differences each contain a margin point (distinct by Operand hash)",
 		Assumptions: []string{"operands validated by the harness: simple rings, holes inside shells, no vertex of one Operand within 1e-7*diameter of an edge of the other (general position with a margin) - except in the phase near_coincident, which drops the margin (only exact incidences rejected) and, like the phases tiny_magnitude (coordinates 1e-13..3e-7) and huge_magnitude (1e154..1e160), reports everything under one key: they exhibit defects of the external clipper listed in known_findings.json", "phase far_from_origin (figures 1e5..1e9 times their size away from the origin) judges membership only, at points 1e-5*diameter clear of the input edges: result vertices are rounded to the float64 spacing at the offset", "test points keep 1e-7*diameter clear of every input edge", "Polygonal.Area() of a result is compared only when its rings do not touch each other (geom documents hole detection as undefined there)"},
 		Phases: []core.Phase{{Name: "ops", NumCases: func(t string) int {
 			if t == "thorough" {
@@ -47,11 +47,16 @@ func init() {
 				return 6000
 			}
 			return 300
+		}}, {Name: "huge_box", NumCases: func(t string) int {
+			if t == "thorough" {
+				return 60000
+			}
+			return 4000
 		}}},
 		Run: run,
 		Floors: func(t string) map[string]int64 {
 			m := map[string]int64{"cfg.overlapping": 200, "cfg.b_inside_a": 100, "cfg.b_inside_hole_of_a": 100, "cfg.a_inside_b": 100, "cfg.disjoint_bbox_overlap": 100,
-				"cfg.bbox_disjoint_both_axes": 100, "cfg.bbox_disjoint_one_axis": 100, "cfg.box_corners_inside_concave": 100, "cfg.tiny_next_to_huge": 100, "cfg.empty_operand": 100, "cfg.near_coincident": 150, "scale.1e-13..1e-10": 150, "scale.1e154..1e160": 150, "offset.1e5_sizes": 150, "offset.1e8_sizes": 150, "scale.1e-6..1e15": 150, "points.judged": 100000, "area.identities_checked": 1000, "area.method_compared": 1000, "result.empty_correct": 500, "kind.nested": 50, "kind.interlocked": 50, "presentation.rings_shuffled_into_one_polygon": 300}
+				"cfg.bbox_disjoint_both_axes": 100, "cfg.bbox_disjoint_one_axis": 100, "cfg.box_corners_inside_concave": 100, "cfg.tiny_next_to_huge": 100, "cfg.empty_operand": 100, "cfg.near_coincident": 150, "scale.1e-13..1e-10": 150, "scale.1e154..1e160": 150, "offset.1e5_sizes": 150, "offset.1e8_sizes": 150, "scale.1e-6..1e15": 150, "points.judged": 100000, "area.identities_checked": 1000, "area.method_compared": 1000, "result.empty_correct": 500, "kind.nested": 50, "kind.interlocked": 50, "presentation.rings_shuffled_into_one_polygon": 300, "huge_box.cases": 2000, "huge_box.box_cuts_through_A": 1000, "huge_box.as_polygon": 500}
 			for _, a := range []string{"Polygon", "MultiPolygon", "*Bounds"} {
 				for _, b := range []string{"Polygon", "MultiPolygon", "*Bounds"} {
 					m["pair."+a+"x"+b] = 40
@@ -389,6 +394,10 @@ var kinds = []string{"star", "star", "starholes", "starholes", "comb", "stair", 
 var configs = []string{"empty_operand", "overlapping", "overlapping", "overlapping", "box_corners_inside_concave", "b_inside_a", "b_inside_hole_of_a", "a_inside_b", "disjoint_bbox_overlap", "bbox_disjoint_both_axes", "bbox_disjoint_one_axis", "tiny_next_to_huge"}
 
 func run(c *core.Ctx, idx int) {
+	if c.Phase == "huge_box" {
+		runHugeBox(c)
+		return
+	}
 	r := c.R
 	maxVerts := 60
 	if c.Thorough() && r.Chance(0.1) {
